@@ -727,7 +727,6 @@ func c17KauriUsesChildList(c *Ctx) {
 	}
 }
 
-
 // isPosKey: k is (or contains) the position of a replica: a call of the position look-up helper, or -- when that
 // helper merely forwards, so that the Keyer names the call by what it forwards to -- slices.Index over the position table.
 func isPosKey(k, posName string) bool {
